@@ -15,9 +15,10 @@ READY = True
 LEAN_TARGETS = ["NauyacaVerif.Props.C04", "NauyacaVerif.Props.Tr.Chain"]
 THEOREMS = ['NauyacaVerif.C04.handler_gated', 'NauyacaVerif.C04.mw_once', 'NauyacaVerif.C04.undecided_no_handler', 'NauyacaVerif.C04.deny_is_response', 'NauyacaVerif.C04.raise_refuses', 'NauyacaVerif.C04.rejection_not_success', 'NauyacaVerif.C04.mwResponses_wf', 'NauyacaVerif.C04.pump_handler_gated'] + ['NauyacaVerif.Translated.chain_first_reject']
 TRANSLATED = ['chain']
-LEAN_TARGETS = LEAN_TARGETS + ["NauyacaVerif.Props.Tr.Dispatch"]
-TRANSLATED = list(globals().get("TRANSLATED", [])) + ["handleMwResult", "handleGeminiRequest", "processTitanUpload"]
-THEOREMS = THEOREMS + [f"NauyacaVerif.Translated.{t}" for t in ("handleMwResult_eq", "handleGeminiRequest_eq", "processTitanUpload_eq")]
+LEAN_TARGETS = LEAN_TARGETS + ["NauyacaVerif.Props.Tr.Dispatch", "NauyacaVerif.Props.Tr.Rejection"]
+TRANSLATED = list(globals().get("TRANSLATED", [])) + ["handleMwResult", "handleGeminiRequest", "processTitanUpload", "sendMwRejection"]
+THEOREMS = THEOREMS + [f"NauyacaVerif.Translated.{t}" for t in ("handleMwResult_eq", "handleGeminiRequest_eq", "processTitanUpload_eq",
+                                                                  "sendMwRejection_eq", "sendMwRejection_is_reject", "rejection_never_success")]
 EXTRACT = ["mwResponses"]
 LEVEL_TEXT = "Proved for every event list, Gemini and Titan: with a chain configured, handler + upload invocations never exceed consumed allow verdicts, nothing is invoked while the verdict is outstanding, a deny/raise verdict ends in a response and no invocation, a refusal is never relayed as success; lifted to the pump model. Correspondence: scripted verdicts in every order vs reads/timer/disconnect, chains of the REAL RateLimiter/AccessControl/CertificateAuth + scripted components against a reference 'first rejecting component evaluated on its own', chain arguments (normalised URL, peer address, SHA-256 fingerprint of the certificate actually presented, also over the real PyOpenSSL handshake); several connections sharing one chain under chosen interleavings (same loop iteration, overlapping slow evaluations, counting components): every handler run covered by an allow of every component for that very request."
 LEVEL_NOTE = "Trusted: Lean kernel (axioms propext, Classical.choice, Quot.sound only); the hand-written model Srv.step/Srv.pumpStep is tied to /repo by extraction (constants, 'every transport.write sits in _send_response') and by the correspondence run of every check (fake transport with asyncio's write-after-close semantics, virtual-clock loop, scripted handlers; real PyOpenSSL pump over memory BIOs); asyncio's transport/timer contract, OpenSSL's record layer and Python exception texts are assumed, see assumptions."
